@@ -191,6 +191,68 @@ def genWOp (st : GS) (big : Bool) : Gen (WOp × GS) := do
 
 def emptyWorld : World := { arrs := [{}, {}, {}] }
 
+/-- A *macro record*: one real API call whose expected observation is the fold of already-modelled
+(and proved) operations — constructors, single-pass input-iterator overloads, same-array view
+assignment and the documented exceptions of `ArrayView_` assignment. -/
+structure Macro where
+  line : String
+  ops : List WOp
+  forceThrown : Bool := false
+
+def pushAll (k : Nat) (vs : List Elt) : List WOp := vs.map (fun v => WOp.on k (.pushBack (.ext v)))
+
+def genMacro (st : GS) : Gen (Macro × GS) := do
+  let i ← rnd 3
+  let a := st.w.get i
+  let sz := a.size
+  let kind ← rnd 10
+  let n ← rnd 9
+  match kind with
+  | 0 =>      -- Array_(n): n default-constructed elements, exact allocation
+    return ({ line := s!"I w ctorN {i} {n}",
+              ops := [.on i .deallocate, .on i (.reserve n), .on i (.assignRange (List.replicate n defaultVal))] }, st)
+  | 1 =>      -- Array_(n, v)
+    let (v, st) := fresh st
+    return ({ line := s!"I w ctorNV {i} {n} {v}",
+              ops := [.on i .deallocate, .on i (.reserve n), .on i (.assignRange (List.replicate n v))] }, st)
+  | 2 | 3 =>  -- Array_(first,last1): pointers / std::vector / converting Array_<int> / forward iterators / initializer_list
+    let (vs, st) := freshList st n
+    let how ← rnd 5
+    return ({ line := s!"I w ctorRange {i} {how} {listTok vs}",
+              ops := [.on i .deallocate, .on i (.reserve n), .on i (.assignRange vs)] }, st)
+  | 4 =>      -- Array_(InputIterator, InputIterator): push_back one at a time
+    let (vs, st) := freshList st n
+    return ({ line := s!"I w ctorInput {i} {listTok vs}", ops := WOp.on i .deallocate :: pushAll i vs }, st)
+  | 5 =>      -- assign(InputIterator, InputIterator): clear(), then push_back one at a time
+    let (vs, st) := freshList st n
+    return ({ line := s!"I w assignInput {i} {listTok vs}", ops := WOp.on i .clear :: pushAll i vs }, st)
+  | 6 =>      -- insert(p, InputIterator, InputIterator): insert one at a time
+    let p ← rnd (sz + 1)
+    let (vs, st) := freshList st (n % 5)
+    let ops := (List.range vs.length).map (fun q => WOp.on i (.insert (p + q) (.ext (vs.getD q 0))))
+    return ({ line := s!"I w insertInput {i} {p} {listTok vs}", ops := ops }, st)
+  | 7 | 8 =>  -- a(off,len) = a(off2,len) on the SAME array: elementwise if disjoint, exception if the ranges overlap
+    let len ← rnd (sz / 2 + 1)
+    let off ← rnd (sz - len + 1); let off2 ← rnd (sz - len + 1)
+    let overlap := len > 0 && off < off2 + len && off2 < off + len
+    if overlap then
+      return ({ line := s!"I w viewSelf {i} {off} {off2} {len}", ops := [], forceThrown := true }, st)
+    else
+      return ({ line := s!"I w viewSelf {i} {off} {off2} {len}",
+                ops := [.on i (.viewAssign off (((abs a).drop off2).take len))] }, st)
+  | _ =>      -- a_i(off,len) = a_j(off2,len2) with len ≠ len2: "same size" exception, nothing assigned
+    let j := (i + 1) % 3
+    let b := st.w.get j
+    let len ← rnd (sz + 1); let len2 ← rnd (b.size + 1)
+    if len = len2 then
+      return ({ line := s!"I w viewCopy {i} 0 {j} 0 {len}", ops := [.viewCopy i 0 j 0 len] }, st)
+    else
+      return ({ line := s!"I w viewMismatch {i} {len} {j} {len2}", ops := [], forceThrown := true }, st)
+
+def unguardedW (w : World) : WOp → Bool
+  | .on k op => unguardedOK (w.get k) op
+  | _ => true
+
 partial def genNormal (out : IO.FS.Stream) (et : String) (mx : Nat) (big : Bool) (n : Nat) (g : SplitMix) : IO Unit := do
   let mut g := g
   let mut left := n
@@ -204,15 +266,36 @@ partial def genNormal (out : IO.FS.Stream) (et : String) (mx : Nat) (big : Bool)
     left := left - 1
     for _ in [0:caseLen] do
       if left = 0 then break
-      let ((wop, st1), g1) := (genWOp st big).run g
+      let (useMacro, g1) := g.below 10
       g := g1
-      st := st1
-      if wlegal mx st.w wop then
-        let w' := wstepFixed mx st.w wop
-        out.putStrLn (wopTok wop)
-        out.putStrLn (obsTok w')
-        st := { st with w := { w' with thrown := false } }
-        left := left - 1
+      if useMacro = 0 && et != "M" then
+        let ((m, st1), g1) := (genMacro st).run g
+        g := g1
+        st := st1
+        -- fold the modelled operations; every one of them must be legal where it is applied
+        let mut w := st.w
+        let mut ok := true
+        let mut thrown := m.forceThrown
+        for op in m.ops do
+          if ok && wlegal mx w op && unguardedW w op then
+            w := wstepFixed mx w op
+            thrown := thrown || w.thrown
+          else ok := false
+        if ok then
+          out.putStrLn m.line
+          out.putStrLn (obsTok { w with thrown := thrown })
+          st := { st with w := { w with thrown := false } }
+          left := left - 1
+      else
+        let ((wop, st1), g1) := (genWOp st big).run g
+        g := g1
+        st := st1
+        if wlegal mx st.w wop && unguardedW st.w wop then
+          let w' := wstepFixed mx st.w wop
+          out.putStrLn (wopTok wop)
+          out.putStrLn (obsTok w')
+          st := { st with w := { w' with thrown := false } }
+          left := left - 1
 
 /-- aliasing streams: build an array, then one operation whose value argument is an element that the
 operation reallocates (`realloc`) or shifts (`shift`).  Expected observation = specification. -/
@@ -323,10 +406,13 @@ partial def genPtr (out : IO.FS.Stream) (n : Nat) (g : SplitMix) : IO Unit := do
             out.putStrLn s!"I cow detach {k}"
             let (h, p) := Cow.detach s.h pk
             s := { s with h := h, cow := s.cow.set k p }
-          else
+          else if v % 2 = 0 then
             let (h, _) := Cow.reset s.h pk
             let (h, p) := Cow.copyCtor h pj
             s := { s with h := h, cow := s.cow.set k p }; out.putStrLn s!"I cow cctor {k} {j}"
+          else   -- destroy k, move-construct it from j
+            let (h, p, q) := Cow.moveAssign s.h pk pj
+            s := { s with h := h, cow := (s.cow.set k p).set j q }; out.putStrLn s!"I cow mctor {k} {j}"
         | 5 | 6 =>
           if pk.isSome then
             let (h, p) := Cow.write s.h pk v
@@ -357,9 +443,7 @@ partial def genPtr (out : IO.FS.Stream) (n : Nat) (g : SplitMix) : IO Unit := do
           s := { s with h2 := h, cl := s.cl.set k p }; out.putStrLn s!"I clone make {k} {v}"
         | 2 | 3 =>
           if k = j then
-            out.putStrLn s!"I clone reset {k}"
-            let (h, p) := Clone.reset s.h2 pk
-            s := { s with h2 := h, cl := s.cl.set k p }
+            out.putStrLn s!"I clone copy {k} {k}"      -- self assignment: `if (&src != this)` — nothing happens
           else
             let (h, p) := Clone.copyAssign s.h2 pk pj
             s := { s with h2 := h, cl := s.cl.set k p }; out.putStrLn s!"I clone copy {k} {j}"
@@ -368,10 +452,13 @@ partial def genPtr (out : IO.FS.Stream) (n : Nat) (g : SplitMix) : IO Unit := do
             out.putStrLn s!"I clone reset {k}"
             let (h, p) := Clone.reset s.h2 pk
             s := { s with h2 := h, cl := s.cl.set k p }
-          else
+          else if v % 2 = 0 then
             let (h, _) := Clone.reset s.h2 pk
             let (h, p) := Clone.copyCtor h pj
             s := { s with h2 := h, cl := s.cl.set k p }; out.putStrLn s!"I clone cctor {k} {j}"
+          else
+            let (h, _) := Clone.reset s.h2 pk
+            s := { s with h2 := h, cl := (s.cl.set k pj).set j none }; out.putStrLn s!"I clone mctor {k} {j}"
         | 5 | 6 =>
           if pk.isSome then
             s := { s with h2 := Clone.write s.h2 pk v }; out.putStrLn s!"I clone write {k} {v}"
@@ -399,15 +486,18 @@ partial def genPtr (out : IO.FS.Stream) (n : Nat) (g : SplitMix) : IO Unit := do
           s := { s with rp := s.rp.set k (RefPtr.reset (some t)) }; out.putStrLn s!"I refp set {k} {t}"
         | 1 =>
           if k = j then
-            s := { s with rp := s.rp.set k none }; out.putStrLn s!"I refp reset {k}"
+            out.putStrLn s!"I refp copy {k} {k}"        -- self assignment keeps the pointer
           else
             s := { s with rp := s.rp.set k (RefPtr.copyAssign (s.rp.getD k none) (s.rp.getD j none)) }
             out.putStrLn s!"I refp copy {k} {j}"
         | 2 =>
           if k = j then
             s := { s with rp := s.rp.set k none }; out.putStrLn s!"I refp reset {k}"
-          else
+          else if v % 2 = 0 then
             s := { s with rp := s.rp.set k (RefPtr.copyCtor (s.rp.getD j none)) }; out.putStrLn s!"I refp cctor {k} {j}"
+          else
+            let (p, q) := RefPtr.moveCtor (s.rp.getD j none)
+            s := { s with rp := (s.rp.set k p).set j q }; out.putStrLn s!"I refp mctor {k} {j}"
         | 3 =>
           if k = j then
             s := { s with rp := s.rp.set k none }; out.putStrLn s!"I refp reset {k}"
@@ -421,19 +511,21 @@ partial def genPtr (out : IO.FS.Stream) (n : Nat) (g : SplitMix) : IO Unit := do
         | 5 =>
           s := { s with roc := s.roc.set k (ResetOnCopy.assignValue (s.roc.getD k 0) v) }; out.putStrLn s!"I roc set {k} {v}"
         | 6 =>
-          if k = j then
-            s := { s with roc := s.roc.set k (ResetOnCopy.assignValue (s.roc.getD k 0) v) }; out.putStrLn s!"I roc set {k} {v}"
-          else if v % 2 = 0 then
+          if k = j || v % 2 = 0 then     -- includes self assignment `x = x`, which also resets
             s := { s with roc := s.roc.set k (ResetOnCopy.copyAssign (s.roc.getD k 0) (s.roc.getD j 0)) }; out.putStrLn s!"I roc copy {k} {j}"
+          else if v % 3 = 0 then
+            s := { s with roc := s.roc.set k (ResetOnCopy.moveCtor (s.roc.getD j 0)) }; out.putStrLn s!"I roc mctor {k} {j}"
           else
             s := { s with roc := s.roc.set k (ResetOnCopy.copyCtor (s.roc.getD j 0)) }; out.putStrLn s!"I roc cctor {k} {j}"
         | 7 =>
           s := { s with ri := s.ri.set k ((s.ri.getD k default).assignValue v) }; out.putStrLn s!"I ri set {k} {v}"
         | 8 =>
-          if k = j then
+          if k = j && v % 3 = 0 then
             s := { s with ri := s.ri.set k (Reinit.make v) }; out.putStrLn s!"I ri make {k} {v}"
-          else if v % 2 = 0 then
+          else if k = j || v % 2 = 0 then    -- includes self assignment: value := own reinit value
             s := { s with ri := s.ri.set k (Reinit.copyAssign (s.ri.getD k default) (s.ri.getD j default)) }; out.putStrLn s!"I ri copy {k} {j}"
+          else if v % 3 = 0 then
+            s := { s with ri := s.ri.set k (Reinit.moveCtor (s.ri.getD j default)) }; out.putStrLn s!"I ri mctor {k} {j}"
           else
             s := { s with ri := s.ri.set k (Reinit.copyCtor (s.ri.getD j default)) }; out.putStrLn s!"I ri cctor {k} {j}"
         | _ =>
